@@ -45,6 +45,8 @@ def run(ctx):
     ctx.analysed['bodies'].update(parent.keys())
     ctx.analysed['notes'].append({'external_callees': {k: list(v) for k, v in sorted(ext.items())}, 'cone_stopped_at': sorted(inner)})
     triage = cone.load_triage(TRIAGE)
+    import controls
+    controls.panic_cone(ctx)
     cone.judge(ctx, 'U1.panic-source', cone.group_keys(srcs), triage,
                lambda s: 'panic source reachable from connection setup (%s) via %s' % (s.kind, ' -> '.join(x.split('::')[-1] if '{closure' not in x else x.split('::')[-2] + '::{closure}' for x in G.chain(parent, s.fn))))
     ctx.floor('U1', 'bodies in the setup cone', len(parent), 10)
